@@ -127,6 +127,9 @@ func genC18Case(t *rapid.T) *C18Case {
 	}
 	c.Pos = rapid.IntRange(0, k).Draw(t, "urlPos")
 	finishScalar(t, b)
+	if rapid.IntRange(0, 3).Draw(t, "nest") == 0 {
+		b.Nest = rapid.SampledFrom([]int{1, 2, 5, 9, 10, 11, 12, 20, 33, 40}).Draw(t, "nestDepth") // tag carrier: the field's struct lies this deep
+	}
 	if rapid.IntRange(0, 3).Draw(t, "decoy") == 0 {
 		// (tag carrier only) an earlier call on the same struct type with another per-call rule
 		b.Decoy = rapid.SampledFrom([]string{"required", "to=1~3|decoy", "ge=2", "phone|诱饵"}).Draw(t, "decoyRule")
